@@ -88,9 +88,15 @@ pub fn run(ctx: &mut Ctx) {
         xs.set_insn_limit(Some(LIMIT)).unwrap();
         let mut texts: Vec<String> = Vec::new();
         let nsources = ctx.rng.below(4) + 1;
+        // a source that stayed on the interpreter's list (it ran, or failed only at run time) is often submitted again
+        // verbatim: the location of the second failure must name the second buffer, not the first with equal text
+        let mut again: Option<String> = None;
         for _ in 0..nsources {
             done += 1;
-            let (text, marker) = if !texts.is_empty() && ctx.rng.chance(25) {
+            let (text, marker) = if let Some(t) = again.take() {
+                ctx.tag("source:identical-text-of-kept-source");
+                (t, None)
+            } else if !texts.is_empty() && ctx.rng.chance(25) {
                 ctx.tag("source:identical-text");
                 (ctx.rng.pick(&texts).clone(), None)
             } else {
@@ -116,6 +122,7 @@ pub fn run(ctx: &mut Ctx) {
             xs.set_insn_limit(Some(LIMIT)).unwrap();
             let r = crate::guarded(|| xs.eval(&text));
             texts.push(text.clone());
+            if !is_build_err && ctx.rng.chance(30) { again = Some(text.clone()); }
             let answer = match &r {
                 None => "panic".to_string(),
                 Some(Ok(())) => "ok".to_string(),
@@ -148,6 +155,11 @@ pub fn run(ctx: &mut Ctx) {
                             // the error belongs to the buffer that was just submitted unless it was raised inside a word defined earlier
                             if is_build_err {
                                 ctx.check(same_buf, || case.clone(), || format!("<buffer#{}>", nsrc), || loc.filename.to_string());
+                            } else if !in_meta && xs.verif_dump().ip >= d.code_len {
+                                // a run-time failure at an instruction this very source compiled: the location names this buffer,
+                                // however many earlier sources had the same text
+                                ctx.check(same_buf, || format!("{} (failing instruction {} is in the code of this source, which starts at {})", case, xs.verif_dump().ip, d.code_len),
+                                    || format!("<buffer#{}>", nsrc), || loc.filename.to_string());
                             }
                             if !same_buf { ctx.tag("loc:earlier-buffer"); "earlier-buffer".to_string() } else {
                                 format!("{} {} tok={} file={} line={} col={} whole={}", kind, canon::err(e), tok_index(&t, start, text.len()),
